@@ -498,6 +498,15 @@ def r10_targets_and_budget(ctx):
     _r5(proxy(ctx, 'R10'))
 
 
+def r11_raman_lumped(ctx):
+    """R11: the Raman gain the design estimates for a span (estimate_raman_gain runs the Raman solver) sees every lumped loss of the
+    fibre: losses that fall on one grid point are all multiplied together (rule shared with C05-R6) - otherwise the designed gain
+    does not close the budget of a Raman span with several lumped losses"""
+    from .c05 import r6_lumped_all as _r
+    from .common import proxy
+    _r(proxy(ctx, 'R11'))
+
+
 from ..memo import rule_for as _memo_rule
 
 RULES_MEMO = ('Rm.memo', _memo_rule('C09', 'the operating point designed for another element or reference would be reused'))
@@ -507,4 +516,4 @@ from ..presence import rule_for as _presence_rule
 
 RULES_PRESENCE = ('Rp.presence', _presence_rule('C09', 'a configured power / gain / VOA of exactly 0 would be replaced by another value in the budget'))
 
-RULES = [('R6.span-loss', r6_span_loss), ('R1.budget', r1_budget), ('R2.rule', r2_rule), ('R3.saturation', r3_saturation), ('R4.voa', r4_voa), ('R5.chaining', r5_chaining), RULES_MEMO, RULES_PRESENCE, ('Rv.verbose-pure', rv_verbose), ('Re.for-each', re_foreach), ('R7.selected-budget', r7_selected_budget), ('Rn.arg-roles', rn_arg_roles), ('R8.design-helpers', r8_design_helpers), ('Rz.sentinel', rs_sentinel), ('R9.roadm-input', r_roadm_input), ('R10.targets-and-budget', r10_targets_and_budget)]
+RULES = [('R6.span-loss', r6_span_loss), ('R1.budget', r1_budget), ('R2.rule', r2_rule), ('R3.saturation', r3_saturation), ('R4.voa', r4_voa), ('R5.chaining', r5_chaining), RULES_MEMO, RULES_PRESENCE, ('Rv.verbose-pure', rv_verbose), ('Re.for-each', re_foreach), ('R7.selected-budget', r7_selected_budget), ('Rn.arg-roles', rn_arg_roles), ('R8.design-helpers', r8_design_helpers), ('Rz.sentinel', rs_sentinel), ('R9.roadm-input', r_roadm_input), ('R10.targets-and-budget', r10_targets_and_budget), ('R11.raman-lumped', r11_raman_lumped)]
